@@ -84,6 +84,9 @@ class C11(core.Check):
             'PEEKed and compared with the model, VARPTR / VARPTR$ / PEEK(VARPTR+i) go through the BASIC '
             'functions. Oracle: dict reference; every cell must read back its value at VARPTR, ranges disjoint '
             'and inside the variable area. non-trivial = a second array or >= 3 variables were checked')
+    PARTIAL = ('the characters of string variables (PEEK at the descriptor address, before and after a collection) '
+               'are checked by the oracle on the implementation only - the theorems treat descriptors as opaque bytes '
+               '(string space is proved in C10); no theorem bounds addresses by 64K (the memory limit is an input)')
     histogram = None
 
     def __init__(self, tier, seed):
